@@ -204,6 +204,8 @@ fn run(t: &Tab, obs: &mut Obs, pairs: bool) -> Result<(), Fail> {
         3 => run_n::<3>(t, obs, pairs),
         4 => run_n::<4>(t, obs, pairs),
         5 => run_n::<5>(t, obs, pairs),
+        6 => run_n::<6>(t, obs, pairs),
+        8 => run_n::<8>(t, obs, pairs),
         _ => Ok(()),
     }
 }
@@ -244,6 +246,34 @@ fn lawful() -> Vec<Tab> {
         out.push(Tab { n, f: lz.clone(), g: lz.clone(), b: id.clone(), b2: id.clone(), e: 0, z: 0, one: 0 });
         // multiplication as a bilinear map over addition
         out.push(Tab { n, f: add.clone(), g: mul.clone(), b: id.clone(), b2: id.clone(), e: 0, z: 0, one: 1 % n });
+    }
+    // ---- structures that satisfy a composite law but not the next stronger one
+    // S3 (n = 6): a group that is not abelian. Elements are permutations of {0,1,2} in lexicographic order.
+    {
+        let perms: [[u8; 3]; 6] = [[0, 1, 2], [0, 2, 1], [1, 0, 2], [1, 2, 0], [2, 0, 1], [2, 1, 0]];
+        let idx = |p: [u8; 3]| perms.iter().position(|q| *q == p).unwrap() as u8;
+        let comp = |a: u8, b: u8| {
+            let (p, q) = (perms[a as usize], perms[b as usize]);
+            idx([p[q[0] as usize], p[q[1] as usize], p[q[2] as usize]])
+        };
+        let f: Vec<u8> = (0..36).map(|i| comp((i / 6) as u8, (i % 6) as u8)).collect();
+        let inv: Vec<u8> = (0..6u8).map(|a| (0..6u8).find(|b| comp(a, *b) == 0).unwrap()).collect();
+        let id: Vec<u8> = (0..6).collect();
+        out.push(Tab { n: 6, f: f.clone(), g: f.clone(), b: inv.clone(), b2: id.clone(), e: 0, z: 0, one: 0 });
+    }
+    // upper-triangular 2x2 matrices over GF(2) (n = 8): a ring with unity whose multiplication is
+    // not commutative (the smallest such ring). Element x encodes [[a,b],[0,d]] as bits a=4,b=2,d=1.
+    {
+        let add = |x: u8, y: u8| x ^ y;
+        let mul = |x: u8, y: u8| {
+            let (a1, b1, d1) = ((x >> 2) & 1, (x >> 1) & 1, x & 1);
+            let (a2, b2, d2) = ((y >> 2) & 1, (y >> 1) & 1, y & 1);
+            ((a1 & a2) << 2) | ((((a1 & b2) ^ (b1 & d2)) & 1) << 1) | (d1 & d2)
+        };
+        let f: Vec<u8> = (0..64).map(|i| add((i / 8) as u8, (i % 8) as u8)).collect();
+        let g: Vec<u8> = (0..64).map(|i| mul((i / 8) as u8, (i % 8) as u8)).collect();
+        let neg: Vec<u8> = (0..8).collect(); // characteristic 2: every element is its own negative
+        out.push(Tab { n: 8, f, g, b: neg.clone(), b2: neg, e: 0, z: 0, one: 0b101 });
     }
     out
 }
